@@ -11,7 +11,7 @@ pub fn gen(rng: &mut Rng, tier: Tier, out: &mut Vec<String>) {
     for i in 0..n {
         let door = ['r', 'B', 'b', 'c'][i % 4];
         let colour_only = i % 5 == 4;
-        let k = 1 + (i / 2) % 2;
+        let k = 1 + (i / 2) % 4;
         let ntris = if colour_only { 1 } else { 1 + rng.below(if tier == Tier::Quick { 4 } else { 8 }) as usize };
         // a third of the framebuffer scenes: culling on, every triangle submitted in both windings
         // (exactly one of each pair must be drawn, so the ideal image is unchanged)
